@@ -86,6 +86,9 @@ def gen_single(rng, profile="general"):
         case["mp"] = True
         case["nproc"] = int(rng.integers(2, K_ + 2))
         case["task_plan"] = {str(r_ * K_ + k_): {"delay": 0.025 * (K_ - 1 - k_)} for r_ in range(2) for k_ in range(K_) if k_ < K_ - 1}
+    if rng.random() < 0.08:
+        # the caller's program uses another start method for worker processes (the default on other platforms)
+        case["start_method"] = ["spawn", "forkserver"][int(rng.integers(0, 2))]
     return case
 
 
